@@ -41,3 +41,18 @@ CASES += [
     t("frame frequency written without the helper locals",
       "            self.rwa = self.convert_2_internal_u(HR[Ne]-HR[Ng])", "            self.rwa = self.convert_2_internal_u(HR[HH.rwa_indices[1]]-HR[HH.rwa_indices[0]])"),
 ]
+
+CASES += [
+    {"name": "spectrum calculated in the caller's units", "kind": "mutant", "rule": "C11-G", "edits": [
+        ("quantarhei/spectroscopy/abscalculator.py",
+         "        with energy_units(\"int\"):\n            \n            if self.system is not None:\n                \n                if from_dynamics:",
+         "        if True:\n            \n            if self.system is not None:\n                \n                if from_dynamics:", 1)]},
+    {"name": "returned axis rebuilt outside the protected region", "kind": "mutant", "rule": "C11-G", "edits": [
+        ("quantarhei/spectroscopy/abscalculator.py",
+         "        return spect\n\n        \n    def one_transition_spectrum(self,tr):",
+         "        spect.axis.data[0] = self.frequencyAxis.data[0]\n        return spect\n\n        \n    def one_transition_spectrum(self,tr):", 1)]},
+    {"name": "number of points of the axis read outside the protected region", "kind": "twin", "edits": [
+        ("quantarhei/spectroscopy/abscalculator.py",
+         "        return spect\n\n        \n    def one_transition_spectrum(self,tr):",
+         "        npoints = len(self.frequencyAxis.data)\n        return spect\n\n        \n    def one_transition_spectrum(self,tr):", 1)]},
+]
